@@ -8,6 +8,7 @@ pub mod c06;
 pub mod c07;
 pub mod c08;
 pub mod c09;
+pub mod c10;
 pub mod c11;
 pub mod c12;
 pub mod c13;
@@ -48,6 +49,7 @@ registry! {
     "C07" => c07,
     "C08" => c08,
     "C09" => c09,
+    "C10" => c10,
     "C11" => c11,
     "C12" => c12,
     "C13" => c13,
